@@ -126,6 +126,14 @@ pub fn statement(p: &Point, seed: u64) -> Option<Statement> {
         _ => n / 2 + 1,
     };
     let (asserts, rot) = asserts(p.d[5], n, e, width);
+    // for narrow traces two selectors can name the same cell: overlapping assertions are not part of the supported class
+    let mut dedup: Vec<ASpec> = vec![];
+    for a in asserts {
+        if !dedup.contains(&a) {
+            dedup.push(a);
+        }
+    }
+    let asserts = dedup;
     // column 0: the selected rule; other columns: x' = x + c; last column a rotation if a periodic assertion needs it
     let mut rules: Vec<Rule> = (0..width).map(|c| Rule::Pow { d: 1, c: c as u64 + 1 }).collect();
     match RULES[p.d[1]] {
